@@ -126,6 +126,9 @@ def build(E, tier):
     lemmas(E)
     mutators(E)
     hashclient_normalises(E)
+    # the key handed to the placement function is the caller's raw routing key (not the validated / prefixed one)
+    from . import hashmany
+    hashmany.verify_get_client(E, "C11")
 
 
 def get_node(E):
@@ -405,8 +408,80 @@ out(cases=cnt, failing=bad)
 '''
 
 
+HIST = r'''
+import random
+from pymemcache.client.rendezvous import RendezvousHash
+from pymemcache.client.hash import HashClient
+def rule(nodes, key, hf):
+    best = None
+    for n in nodes:
+        s = hf("%s-%s" % (n, key))
+        if best is None or s > best[0] or (s == best[0] and n > best[1]): best = (s, n)
+    return None if best is None else best[1]
+bad = None; cnt = 0
+names = ["10.0.0.%d:11211" % i for i in range(1, 7)] + ["/tmp/s.sock", "cache-a:1"]
+keys = ["k", "user:388:profile", "aaiJljKg", "x" * 40, "7"]
+# placement depends on the key and the CURRENT node set only: histories of add / remove with lookups in between
+for seed in range(payload.get("seeds", 40)):
+    rnd = random.Random(seed)
+    h = RendezvousHash(); cur = []
+    for step in range(30):
+        op = rnd.choice(["add", "remove", "swap", "lookup", "lookup"])
+        if op == "add":
+            n = rnd.choice(names)
+            if n not in cur: h.add_node(n); cur.append(n)
+        elif op == "remove" and cur:
+            n = rnd.choice(cur); h.remove_node(n); cur.remove(n)
+        elif op == "swap" and cur:                      # node count unchanged: one out, another in, no lookup in between
+            out_ = rnd.choice(cur); h.remove_node(out_); cur.remove(out_)
+            cand = [n for n in names if n not in cur and n != out_]
+            if cand:
+                n = rnd.choice(cand); h.add_node(n); cur.append(n)
+        for key in keys:
+            cnt += 1
+            got, exp = h.get_node(key), rule(cur, key, h.hash_function)
+            if got != exp:
+                bad = dict(what="placement depends on history", seed=seed, step=step, nodes=list(cur), key=key, observed=repr(got), expected=repr(exp)); break
+        if bad: break
+    if bad: break
+# HashClient: the server contacted for a key is the published rule applied to the RAW key (not the prefixed / encoded one)
+if not bad:
+    log = []
+    class FC:
+        def __init__(self, server, **kw): self.server = server
+        def get(self, key, default=None, **kw): log.append(self.server); return None
+        def set(self, key, value, *a, **kw): log.append(self.server); return True
+        def close(self): pass
+    for prefix in (b"", b"pfx:"):
+        hc = HashClient([], key_prefix=prefix)
+        hc.client_class = FC
+        servers = [("10.0.0.%d" % i, 11211) for i in range(1, 5)] + ["/tmp/s.sock"]
+        for sv in servers: hc.add_server(sv)
+        nodes = list(hc.clients)
+        for key in keys + [b"bytes-key", "k2"]:
+            for op in ("get", "set"):
+                del log[:]; cnt += 1
+                (hc.get(key) if op == "get" else hc.set(key, "v"))
+                exp = hc.clients[rule(nodes, key, hc.hasher.hash_function)].server
+                if log != [exp]:
+                    bad = dict(what="HashClient routes by something else than '<node>-<raw key>'", prefix=repr(prefix), key=repr(key), op=op, contacted=repr(log), rule=repr(exp)); break
+            if bad: break
+        if bad: break
+out(cases=cnt, failing=bad)
+'''
+REPLAY_OUT_OF_REACH = True
+
+
 def replay(ob, res):
     from pyvc import replay as rp
+    if "out-of-reach" in ob.id or "bounded-exploration" in ob.id or "_get_client" in ob.id:
+        from pyvc.replay import failing_of
+        import os
+        for code, payload in ((SNIPPET, {}), (MUT, {}), (HIST, {"seeds": 400 if os.environ.get("PYVC_TIER") == "thorough" else 40})):
+            obs = rp.run_real(code, payload, timeout=600)
+            if failing_of(obs):
+                return {"reproduced": True, "call": "RendezvousHash / HashClient placement vs the published rule over histories", "input": failing_of(obs)}
+        return {"reproduced": False, "searched": "rule, mutators and histories agree"}
     if "add_node" in ob.id or "remove_node" in ob.id:
         obs = rp.run_real(MUT, {})
         if obs.get("failing"):
